@@ -18,7 +18,7 @@ import re
 from ..facts import extract, units_matching, Program, AnalysisBroken, sx_find, sx_str
 from ..match import call_args, call_obj, var_of, field_of, known_edges, only_via, ev_write
 
-UNITS = r"/Simbody/src/(SimbodyMatterSubsystem|SimbodyMatterSubsystemRep|RigidBodyNode)\.cpp$"
+UNITS = r"/Simbody/src/(SimbodyMatterSubsystem|SimbodyMatterSubsystemRep|RigidBodyNode|RigidBodyNode_Weld|RigidBodyNode_LoneParticle)\.cpp$"
 M = "SimTK::SimbodyMatterSubsystem"
 AGGREGATES = {  # function -> mass-weighted averages (accumulator role) expected: number of `/=` normalisations
     "calcSystemMass": 0,
@@ -218,6 +218,15 @@ def sweeps(chk, P):
                       name + ":every-node-added", f.loc, "ke += node kinetic energy, on every iteration")
             dk = [d for _, _, d in f.events(lambda q: q["k"] == "decl" and acc and q["var"] == acc[0][0])]
             chk.judge(len(dk) == 1 and _zero(dk[0]["init"]), "SWEEP", name + ":starts-from-zero", f.loc, "")
+    # per-node kinetic energy: one routine for every node kind (no node class may opt out of the sum), half of V . (M V) of the node itself
+    kes = [f for f in P.all_fns() if f.name.split("::")[-1] == "calcKineticEnergy" and "SimbodyMatterSubsystemRep" not in f.name and len(f.d.get("params", [])) == 2]
+    chk.judge(len(kes) == 1 and kes[0].cls == "RigidBodyNode", "SWEEP", "node-kinetic-energy:one-routine-for-every-node-kind", kes[0].loc if kes else "",
+              "definitions of the per-node calcKineticEnergy: %s (an override that returns something else removes that node kind from the sum)" % sorted(f.cls or "?" for f in kes))
+    if kes:
+        k = [f for f in kes if f.cls == "RigidBodyNode"]
+        if k:
+            uses = {str(e.get("fn", "")).split("::")[-1] for _, _, e in k[0].calls()}
+            chk.judge({"getV_GB", "getMk_G"} <= uses, "SWEEP", "node-kinetic-energy:from-own-velocity-and-inertia", k[0].loc, "uses %s" % sorted(uses & {"getV_GB", "getMk_G", "dot"}))
     # per-node composite inertia
     fs = [f for f in P.all_fns() if f.name.endswith("RigidBodyNode::calcCompositeBodyInertiasInward")]
     if chk.shape(len(fs) == 1, "SWEEP", "RigidBodyNode::calcCompositeBodyInertiasInward:found", "", "%d base-class definitions" % len(fs)):
@@ -300,6 +309,9 @@ _S = "Simbody/src/SimbodyMatterSubsystem.cpp"
 _R = "Simbody/src/SimbodyMatterSubsystemRep.cpp"
 _N = "Simbody/src/RigidBodyNode.cpp"
 MUTATIONS = [
+    dict(name="seeded (sub-agent, core of it): immobile nodes report zero kinetic energy", arm=True, file="Simbody/src/RigidBodyNode_Weld.cpp",
+         old="    const char* type() const override { return \"weld\"; }", new="    const char* type() const override { return \"weld\"; }\n    Real calcKineticEnergy(const SBTreePositionCache&, const SBTreeVelocityCache&) const { return 0; }",
+         expect="SWEEP:node-kinetic-energy:one-routine-for-every-node-kind"),
     dict(name="system mass skips the last body", arm=True, file=_S,
          old="    for (MobilizedBodyIndex b(1); b < getNumBodies(); ++b)\n        mass += getMobilizedBody(b).getBodyMassProperties(s).getMass();",
          new="    for (MobilizedBodyIndex b(1); b < getNumBodies()-1; ++b)\n        mass += getMobilizedBody(b).getBodyMassProperties(s).getMass();", expect="SUM:calcSystemMass:runs-to-the-last-body"),
